@@ -103,5 +103,5 @@ def handleDom (st : St) (op : String) (j : Json) : Option (D (St × Json)) :=
   | "domHyps" => some do
     let S ← getSchema st j
     return (st, ok (Json.mkObj [("det", Json.bool (detB S)), ("textStable", Json.bool (textStableB S)),
-      ("leafOk", Json.bool (leafOkB S))]))
+      ("leafOk", Json.bool (leafOkB S)), ("fillOk", Json.bool (fillOkB S))]))
   | _ => none
